@@ -17,7 +17,7 @@ PHRASES = {
 }
 PLAIN_BLOCKS = ["NE/4", "W/2", "S/2N/2", "Lots 1 - 3, S/2NE/4", "That part lying north of the river", "N½SW¼",
                 "Lots 1 - 3, Lot 1", "NE/4, NE/4NE/4", "Lots 5 - 3"]
-POSTS = [None, None, "parse_tracts", "parse_tracts_twice", "reparse", "tract_parse"]
+POSTS = [None, None, "parse_tracts", "parse_tracts_twice", "reparse", "tract_parse", "dry_run"]
 TAILS = {"less_except": "the old road", "insofar": "it lies north of the river", "including": "all accretions",
          "depth": "the Dakota", "well": "of the Smith #1"}
 
